@@ -38,6 +38,11 @@ def run(ctx, modname, runs, max_len=4096, nshards=4, timeout=7200, max_steps=60)
     cmd = [sys.executable, "-B", "-W", "ignore", os.path.join(HOME, "fuzz", "traces.py"), modname, wd, "-runs=%d" % runs, "-seed=%d" % (ctx.hseed(13) or 1),
            "-max_len=%d" % max_len, "-len_control=0", "-artifact_prefix=%s/" % wd, "-print_final_stats=1", "-timeout=300", corpus]
     try:
+        # started through a small intermediate shell that forks: libFuzzer reads the process's peak RSS (ru_maxrss), which a
+        # fork+exec child inherits from a large parent - the shard process - and would report "out-of-memory" at once
+        import shlex
+
+        cmd = ["/bin/sh", "-c", shlex.join(cmd) + "; exit $?"]
         p = subprocess.run(cmd, env=env, stdout=subprocess.PIPE, stderr=subprocess.STDOUT, timeout=timeout)
         out = p.stdout.decode("utf-8", "replace")
     except subprocess.TimeoutExpired:
